@@ -511,8 +511,9 @@ theorem handleEv_P (c : Cfg) (hco : CloseOk c) (s : St) (ev : SrvEv) (hp : s.has
     · right; exact Post.of_frame f3 (by simpa using post)
   | pong p =>
     simp only [handleEv]
-    have f3 : Frame s { s with lastPong := s.now } := by constructor <;> simp_all [cbs]
-    generalize ({ s with lastPong := s.now } : St) = s3 at f3 ⊢
+    generalize pongStamp s = q
+    have f3 : Frame s { s with lastPong := q } := by constructor <;> simp_all [cbs]
+    generalize ({ s with lastPong := q } : St) = s3 at f3 ⊢
     have h3 : s3.hasDoneTeardown = false := by rw [f3.hdt]; exact hp
     have post := post_plain c s3 .onPong [.bytes p] (by simp) (by simp) h3
       ((asRead true (callback c s3 .onPong [.bytes p])).2 = .ok false)
